@@ -50,6 +50,11 @@ func (e *Engine) patternIntrinsic(fn *ssa.Function, name string) intrinsicFn {
 		if !strings.HasPrefix(fn.Pkg.Pkg.Path(), modPath) {
 			return noopIntrinsic
 		}
+		// grpchantesting is imported for its generated message type only; its
+		// package-level test data (built with the protobuf runtime) is not used
+		if fn.Pkg.Pkg.Path() == modPath+"/grpchantesting" {
+			return noopIntrinsic
+		}
 		return nil
 	}
 	// generated protobuf message methods that depend on the protobuf runtime
